@@ -20,7 +20,7 @@ FN_NAMES = ["compute", "render", "fetch", "cache", "route", "handler", "store", 
 CLS_NAMES = ["Alpha", "Beta", "Gamma"]
 PARAMS = ["alpha", "beta", "gamma", "delta", "epsilon"]
 TYPES = ["int", "str", "float", "bool", "Optional[int]", "List[str]"]
-DEFAULTS = {"int": ["5", "-3"], "str": ["'why'", "'x y'", "'hello'", "'(x)'", "'a:b'", "'#no'", "'z'", "'%s'", "'a,b'", "'a -> b'"], "float": ["0.5", "2.0"], "bool": ["True", "False"],
+DEFAULTS = {"int": ["5", "-3"], "str": ["'why'", "'x y'", "'hello'", "'(x)'", "'a:b'", "'#no'", "'z'", "'%s'", "'a,b'", "'a -> b'", "'  '", "',  '", "'a   b'"], "float": ["0.5", "2.0"], "bool": ["True", "False"],
             "Optional[int]": ["None", "7"], "List[str]": ["None"]}
 DESCS = ["the first thing", "how many of them", "what to call it", "a switch", "where to look"]
 STYLES = ["rest", "google", "numpydoc"]
@@ -88,6 +88,10 @@ def gen_def(rng, indent, name, first=None, depth=0, allow_nested=True):
     for p in ps:
         p["desc"] = rng.choice(DESCS)
     typed = rng.choice(["ann", "doc", "none"])
+    if typed == "ann":
+        for p in ps:
+            if rng.random() < 0.2:
+                p["ann"] = '"Node"'       # a quoted forward reference
     style = rng.choice(STYLES + [None])
     is_async = rng.random() < 0.15
     ret = {"type": rng.choice(TYPES[:4]), "desc": "the outcome"} if rng.random() < 0.6 else None
@@ -114,7 +118,9 @@ def gen_def(rng, indent, name, first=None, depth=0, allow_nested=True):
     def render(p, with_ann):
         s = p["name"]
         if with_ann:
-            s += ": " + p["type"]
+            s += ": " + (p.get("ann") or p["type"])
+            if p.get("ann"):
+                feats.add("quoted-annotation")
         if p["default"] is not None:
             s += (" = " if with_ann else "=") + p["default"]
         return s
@@ -574,6 +580,9 @@ def run_case(c):
                     [(x.arg, ast.dump(x.annotation) if x.annotation else None) for x in ra.args.args] == \
                     [(x.arg, ast.dump(x.annotation) if x.annotation else None) for x in rb.args.args]
                 why = "/positional-annotations-unchanged" if same_pos else ""
+                if not same_pos and ra is not None and rb is not None and \
+                        [(x.arg, x.annotation is None) for x in ra.args.args] == [(x.arg, x.annotation is None) for x in rb.args.args]:
+                    why = "/positional-annotation-rewritten"     # none added, none removed: an annotation that was there was changed
                 for k in kinds:
                     res["problems"].append(("program/header-reprint-drops-" + k + why, {"def": q, "before": sig(a),
                                                                                   "after": sig(b)}))
@@ -847,6 +856,16 @@ CORPUS = [
     {"src": 'from functools import lru_cache\n\n\nclass Store(object):\n    """\n    A store\n    """\n\n    @lru_cache(maxsize=None)\n    def cache(self, key: str) -> int:\n'
             '        """\n        Memoised lookup\n\n        :param key: the key\n\n        :return: the value\n        """\n        return len(key)\n',
      "fmt": "rest", "type_annotations": False, "no_word_wrap": None},
+    # fully annotated headers with quoted forward references and every kind of parameter, annotations asked for: nothing to rewrite
+    {"src": 'class Node(object):\n    """\n    A node\n    """\n\n    def attach(self, child: "Node", index: int = -1, *, notify: bool = True, **meta) -> "Node":\n'
+            '        """\n        Attach it\n\n        :param child: the child\n\n        :param index: where\n\n        :param notify: tell\n\n        :return: the child\n        """\n'
+            '        return child\n\n\ndef walk(root: "Node", depth: int = 0, *visitors, leaves_only: bool = False) -> list:\n'
+            '    """\n    Walk the tree\n\n    :param root: where to start\n\n    :param depth: starting depth\n\n    :param leaves_only: skip inner nodes\n\n    :return: the nodes\n    """\n'
+            '    # depth first\n    return [root]\n',
+     "fmt": "rest", "type_annotations": True, "no_word_wrap": None},
+    {"src": 'def pad(text: str, fill: str = "  ", sep: str = ",  ", *parts, wide: bool = False, **kw) -> str:\n'
+            '    """\n    Pad it\n\n    :param text: the text\n\n    :param fill: filler\n\n    :param sep: separator\n\n    :param wide: wide\n\n    :return: padded\n    """\n    return text\n',
+     "fmt": "google", "type_annotations": True, "no_word_wrap": None},
 ]
 
 
